@@ -356,6 +356,56 @@ def f_report(rng, sid):
     return sc
 
 
+def f_wide(rng, sid):
+    """sizes beyond 255 and beyond 65535 for the counters the model keeps unbounded: argument text, response text, table
+    size, names sharing a prefix.  Too large for the model's list-based buffers to follow quickly: used on the implementation
+    alone, in the failing-input search when a counter of `struct cat_object` is no longer a `size_t` (translator item T21)."""
+    shape = rng.choice(["args16", "args8", "resp16", "resp8", "table8", "table8"])
+    if shape.startswith("args"):
+        big = 70000 if shape == "args16" else rng.choice([300, 600])
+        lim = 65536 if shape == "args16" else 256
+        sc = Scenario(sid, cap=1, buf=big, uns=64, mutex=0)
+        sc.group()
+        a = sc.slot(1, b"\x2a")
+        sc.cmd(Cmd(b"+W", None, "w", None))
+        sc.cmd(Cmd(b"+V", None, "", [Var(1, a, 1, 0, b"x", 0)]))
+        for n in (rng.choice([lim + 5, lim + 1, lim + 70]), 2 * big, rng.choice([lim - 1, lim])):
+            if n < big - 1 or rng.random() < 0.7:
+                sc.inp(b"AT+W=" + bytes(rng.choice(b"abcXYZ01 ,") for _ in range(n)) + b"\n")
+                drain(sc, n + 4000)
+        sc.inp(b"AT+V=" + b"0" * (2 * lim) + b"7\n")
+        drain(sc, 2 * lim + 4000)
+        sc.inp(b"AT+W=ok\n")
+        drain(sc, 4000)
+        return sc
+    if shape.startswith("resp"):
+        big = 70000 if shape == "resp16" else rng.choice([300, 600])
+        lim = 65536 if shape == "resp16" else 256
+        sc = Scenario(sid, cap=1, buf=big, uns=64, mutex=0)
+        sc.group()
+        sc.cmd(Cmd(b"+R", None, "rt", None))
+        n = rng.choice([lim + 3, lim + 40, big - 2])
+        sc.op("hq 1/e:" + hx(bytes(rng.choice(b"abcdefghij") for _ in range(n))) + ",3,3,3")
+        sc.inp(b"AT+R" + rng.choice([b"?", b"=?"]) + b"\n")
+        drain(sc, 4 * big)
+        return sc
+    # a table of more than 255 commands: the last entries, and names that share a prefix with more than 255 others
+    n = rng.choice([260, 300, 520])
+    sc = Scenario(sid, cap=1, buf=2 * 400, uns=-1, mutex=0)
+    sc.group()
+    names = [b"+P%03d" % i for i in range(n)]
+    for nm in names:
+        sc.cmd(Cmd(nm, None, "x", None))
+    for k in (n - 1, n - 2, 256, 255, 0, rng.randrange(n)):
+        sc.inp(b"AT" + names[k] + b"\n")
+        drain(sc, 40 * n)
+    sc.inp(b"AT+P\n")
+    drain(sc, 40 * n)
+    sc.inp(b"AT+P25\n")
+    drain(sc, 40 * n)
+    return sc
+
+
 def f_rnext(rng, sid):
     """read / test handlers that answer NEXT or DATA_NEXT a few times before finishing, for commands with several
     variables: every round must start from the freshly formatted automatic text"""
@@ -838,7 +888,7 @@ def f_woevt(rng, sid):
 
 
 FAMILIES = {
-    "woevt": f_woevt, "listevt": f_listevt, "rnext": f_rnext, "report": f_report, "flagmid": f_flagmid, "holdtick": f_holdtick,
+    "woevt": f_woevt, "listevt": f_listevt, "rnext": f_rnext, "report": f_report, "wide": f_wide, "flagmid": f_flagmid, "holdtick": f_holdtick,
     "mixed": f_mixed, "lines": f_lines, "table": f_table, "num": f_num, "buf": f_buf, "cap": f_cap, "ret": f_ret,
     "sched": f_sched, "evt": f_evt, "hold": f_hold, "mutex": f_mutex, "list": f_list, "access": f_access,
     "fit": f_fit, "bigambig": f_bigambig, "tabevt": f_tabevt,
